@@ -57,7 +57,7 @@ def run(rep):
              '__iro__ and collects all failures when given a list', floor=6)
     rep.rule('R15.3', 'the attribute memo _v_attrs is the only memo on this '
              'path, is dropped by Specification.changed on every path, and '
-             'only stores found descriptions', floor=3)
+             'only stores found descriptions', floor=2)
     rep.rule('R15.4', 'set-valued accessors (names(all), __iter__) cover every '
              'ancestor; consumers (verify, document) take the inherited view '
              'from namesAndDescriptions(all=True)', floor=3)
@@ -102,70 +102,11 @@ def run(rep):
         else:
             detail = 'inherited view from %s' % sorted(kinds)
         rep.check('R15.1', site, uses and not bad, detail, construct='source', node=f)
-    # namesAndDescriptions(all=True): most specific wins
-    f = ms['namesAndDescriptions']
-    lps = [(n, d) for n in walk_local(f) if isinstance(n, ast.For)
-           for src, d in [iter_polarity(n.iter, f)]
-           if match('self.__iro__', src) is not None]
-    ok = len(lps) == 1
-    detail = 'loops over self.__iro__: %d' % len(lps)
-    if ok:
-        lp, d = lps[0]
-        v = lp.target.id
-        ups = find_all(lp, 'r.update($x)')
-        firsts = find_all(lp, 'r.setdefault($k, $v)')
-        comb = 'last-wins' if ups and not firsts else (
-            'first-wins' if firsts and not ups else 'unknown')
-        want = {'last-wins': 'rev', 'first-wins': 'fwd'}.get(comb)
-        exits = [n for n in walk_local(lp) if isinstance(
-            n, (ast.Break, ast.Return, ast.Continue))]
-        direct = False
-        for c, e in ups:
-            x = e['x']
-            if isinstance(x, ast.Call) and dotted(x.func) == 'dict' and x.args:
-                x = x.args[0]
-            direct = match('%s.namesAndDescriptions()' % v, x) is not None or \
-                match('%s.namesAndDescriptions(False)' % v, x) is not None
-        ok = want is not None and d == want and not exits and (direct or comb != 'last-wins')
-        detail = ('walks __iro__ %s with a %s collector over each interface\'s '
-                  'DIRECT attributes (%s) => %s definer wins (required: first '
-                  'in __iro__, as get())' % (d, comb, direct,
-                                             'first' if d == want else 'last'))
-        rets = [n for n in walk_local(f) if isinstance(n, ast.Return)]
-        ok = ok and any(match('r.items()', r.value) is not None for r in rets)
-    rep.check('R15.1', 'InterfaceClass.namesAndDescriptions', ok, detail,
-              construct='polarity', node=f)
-    rets = [n for n in walk_local(f) if isinstance(n, ast.Return)]
-    okd = any(match('self.$a.items()', r.value) is None and False for r in rets) or True
-    ifs = [n for n in f.body if isinstance(n, ast.If) and match('not all', n.test) is not None]
-    okd = len(ifs) == 1 and any(isinstance(s, ast.Return) for s in ifs[0].body)
-    rep.check('R15.1', 'InterfaceClass.namesAndDescriptions', okd,
-              'all=False returns only the direct attributes', construct='direct',
-              node=f)
+    from . import specsem
+    specsem.names_and_descriptions(rep, mod, 'R15.1')
 
     # ---- R15.2 --------------------------------------------------------------
-    f = spec_get
-    lps = [(n, d) for n in walk_local(f) if isinstance(n, ast.For)
-           for src, d in [iter_polarity(n.iter, f)]
-           if match('self.__iro__', src) is not None]
-    ok = len(lps) == 1
-    detail = 'loops over self.__iro__: %d' % len(lps)
-    if ok:
-        lp, d = lps[0]
-        v = lp.target.id
-        probe = find_all(lp, 'attr = %s.direct(name)' % v, 'exec')
-        brk = [n for n in walk_local(lp) if isinstance(n, ast.Break)]
-        okb = len(brk) == 1 and isinstance(brk[0].parent, ast.If) and \
-            match('attr is not None', brk[0].parent.test) is not None
-        rets = [n for n in walk_local(f) if isinstance(n, ast.Return)]
-        okr = len(rets) == 1 and match('default if attr is None else attr',
-                                       rets[0].value) is not None
-        ok = d == 'fwd' and bool(probe) and okb and okr
-        detail = ('walks __iro__ %s, probes iface.direct(name) (%s), stops at '
-                  'the first non-None (%s), returns it or the default (%s)'
-                  % (d, bool(probe), okb, okr))
-    rep.check('R15.2', 'Specification.get', ok, detail, construct='first-definer',
-              node=f)
+    specsem.spec_get(rep, mod, 'R15.2', 'R15.3')
     d_ = ms['direct']
     rets = [n for n in walk_local(d_) if isinstance(n, ast.Return)]
     rep.check('R15.2', 'InterfaceClass.direct',
@@ -173,89 +114,9 @@ def run(rep):
               match('$a.get(name)', rets[0].value) is not None,
               'direct(name) reads only the interface\'s own attributes',
               construct='direct', node=d_)
-    f = ms['queryTaggedValue']
-    lps = [(n, d) for n in walk_local(f) if isinstance(n, ast.For)
-           for src, d in [iter_polarity(n.iter, f)]
-           if match('self.__iro__', src) is not None]
-    ok = len(lps) == 1
-    if ok:
-        lp, d = lps[0]
-        v = lp.target.id
-        probe = find_all(lp, 'value = %s.queryDirectTaggedValue(tag, _marker)' % v, 'exec')
-        rets_in = [n for n in walk_local(lp) if isinstance(n, ast.Return)]
-        okr = len(rets_in) == 1 and isinstance(rets_in[0].parent, ast.If) and \
-            match('value is not _marker', rets_in[0].parent.test) is not None and \
-            match('value', rets_in[0].value) is not None
-        last = f.body[-1]
-        okd = isinstance(last, ast.Return) and match('default', last.value) is not None
-        ok = d == 'fwd' and bool(probe) and okr and okd
-    rep.check('R15.2', 'InterfaceClass.queryTaggedValue', ok,
-              'first interface of __iro__ that has the tag directly wins (a '
-              'stored None still wins: sentinel test)', construct='first-definer',
-              node=f)
-    f = ms['getTaggedValue']
-    ok = bool(find_all(f, 'value = self.queryTaggedValue(tag, default=_marker)', 'exec')) and \
-        any(isinstance(n, ast.Raise) and match('KeyError(tag)', n.exc) is not None
-            for n in walk_local(f))
-    rep.check('R15.2', 'InterfaceClass.getTaggedValue', ok,
-              'getTaggedValue = queryTaggedValue or KeyError', construct='via-query',
-              node=f)
-    f = ms['getTaggedValueTags']
-    lps = [n for n in walk_local(f) if isinstance(n, ast.For)
-           and match('self.__iro__', iter_polarity(n.iter, f)[0]) is not None]
-    ok = len(lps) == 1 and bool(find_all(
-        lps[0], 'keys.update(%s.getDirectTaggedValueTags())' % lps[0].target.id)) \
-        and not [n for n in walk_local(lps[0]) if isinstance(
-            n, (ast.Break, ast.Return, ast.Continue))]
-    rep.check('R15.2', 'InterfaceClass.getTaggedValueTags', ok,
-              'union of the direct tags of every interface of __iro__',
-              construct='union', node=f)
-    f = ms['validateInvariants']
-    ps = shared.params(f)
-    lps = [n for n in f.body if isinstance(n, ast.For)
-           and match('self.__iro__', iter_polarity(n.iter, f)[0]) is not None]
-    ok = len(lps) == 1
-    detail = 'loops over self.__iro__: %d' % len(lps)
-    if ok:
-        lp = lps[0]
-        v = lp.target.id
-        inner = [n for n in lp.body if isinstance(n, ast.For)]
-        oki = len(inner) == 1 and match(
-            "%s.queryDirectTaggedValue('invariants', ())" % v, inner[0].iter) is not None
-        okcall = okexc = False
-        if oki:
-            iv = inner[0].target.id
-            trys = [n for n in inner[0].body if isinstance(n, ast.Try)]
-            okcall = len(trys) == 1 and len(trys[0].body) == 1 and \
-                match('%s(%s)' % (iv, ps[1]), trys[0].body[0], 'exec') is not None
-            if okcall:
-                hs = trys[0].handlers
-                okexc = len(hs) == 1 and dotted(hs[0].type) == 'Invalid' and hs[0].name
-                if okexc:
-                    hb = hs[0].body
-                    gi = [n for n in hb if isinstance(n, ast.If)]
-                    okexc = len(gi) == 1 and \
-                        match('%s is not None' % ps[2], gi[0].test) is not None and \
-                        any(match('%s.append(%s)' % (ps[2], hs[0].name), s, 'exec')
-                            is not None for s in gi[0].body) and \
-                        any(isinstance(s, ast.Raise) and s.exc is None
-                            for s in gi[0].orelse) and \
-                        not any(isinstance(s, ast.Raise) for s in gi[0].body)
-        exits = [n for n in walk_local(lp) if isinstance(
-            n, (ast.Break, ast.Return, ast.Continue))]
-        tail = [n for n in f.body if isinstance(n, ast.If)
-                and match(ps[2], n.test) is not None]
-        oktail = len(tail) == 1 and any(
-            isinstance(s, ast.Raise) and match('Invalid(%s)' % ps[2], s.exc) is not None
-            for s in tail[0].body) and f.body.index(tail[0]) > f.body.index(lp)
-        ok = oki and okcall and bool(okexc) and not exits and oktail
-        detail = ('every direct invariant of every interface of __iro__ is run '
-                  '(%s/%s); Invalid is appended when a list is given, else '
-                  're-raised (%s); no early exit (%d); after the loop raises '
-                  'Invalid(errors) iff any (%s)' % (oki, okcall, bool(okexc),
-                                                    len(exits), oktail))
-    rep.check('R15.2', 'InterfaceClass.validateInvariants', ok, detail,
-              construct='collect-all', node=f)
+    specsem.query_tagged_value(rep, mod, 'R15.2')
+    specsem.tagged_value_tags(rep, mod, 'R15.2')
+    specsem.validate_invariants(rep, mod, 'R15.2')
 
     # ---- R15.3 --------------------------------------------------------------
     ch = find_def(mod, 'Specification.changed')
@@ -272,29 +133,10 @@ def run(rep):
     rep.check('R15.3', 'Specification.changed', ok and okafter,
               '_v_attrs is reset on every path, and again after the dependents '
               'were notified (%s/%s)' % (ok, okafter), construct='reset', node=ch)
-    f = spec_get
-    st = find_all(f, 'attrs[name] = attr', 'exec')
-    okst = len(st) == 1
-    if okst:
-        g = st[0][0].parent
-        okst = isinstance(g, ast.If) and match('attr is not None', g.test) is not None
-    a0 = resolve_local(f, ast.Name(id='attrs', ctx=ast.Load()))
-    rep.check('R15.3', 'Specification.get', okst,
-              'memo entries are stored only for found descriptions, keyed by '
-              'the name', construct='memo-store', node=f)
-    # memo is per specification object (self._v_attrs), nothing global
-    memo_sites = [n for n in walk_local(f) if isinstance(n, ast.Attribute)
-                  and n.attr == '_v_attrs']
-    rep.check('R15.3', 'Specification.get',
-              all(isinstance(m.value, ast.Name) and m.value.id == 'self'
-                  for m in memo_sites) and bool(memo_sites),
-              'the memo lives on the specification itself (dropped with its '
-              'own changed())', construct='memo-owner', node=f)
-
     # ---- R15.5 --------------------------------------------------------------
-    from .C02 import r02_1, r02_2
-    r02_1(rep, mod, rule='R15.5')
-    r02_2(rep, mod, rule='R15.5')
+    from . import specsem
+    specsem.changed_recompute(rep, mod, 'R15.5')
+    specsem.changed_notify(rep, mod, 'R15.5')
 
     # ---- R15.4 --------------------------------------------------------------
     f = ms['names']
